@@ -115,6 +115,15 @@ def check(cx):
         work = [c for c in f.calls() if c.callee.startswith("runtime::dml::DmlExecutor::") and
                 c.callee.rsplit("::", 1)[-1] in ("insert", "update_row", "delete", "update")]
         good = bool(guards) and bool(work) and all(any(f.dominates(g.bb, w.bb) for g in guards) for w in work)
+        if not good and guards and work:
+            # the guard may sit behind a flag that is constant on this entry (`if pass == Undo && !table_exists(..)` in a body shared
+            # with redo): no path that known constants leave feasible reaches the inverse operation without the guard
+            from axvlib import absint
+            try:
+                ps_ = absint.PathSearch(p, f)
+                good = all(ps_.find_path(0, {w.bb}, kill={g.bb for g in guards}) is None for w in work)
+            except absint.TooManyStates:
+                pass
         cx.verdict(good, r5, name + ":guarded", f.where(), "table_exists dominates the inverse operation",
                    "%s applies its inverse operation without asking whether the table exists: an open transaction "
                    "on a table whose CREATE never reached disk makes open() fail (D29)" % name)
@@ -189,7 +198,7 @@ def check(cx):
                  "(Row::from_bytes_checked), never through the snapshot-aware decoders", floor=4)
     aware = {"storage::tuple::Row::from_bytes_checked_with_snapshot", "storage::tuple::TupleReader::<'a>::parse_for_snapshot"}
     n = 0
-    for f in p.fns.values():
+    for f in K.each_fn(p):          # a decode helper (`put_row_image(table, bytes)`) is judged, inlined, in the handlers that call it
         if f.impl_adt != RECUP:
             continue
         for c in f.calls():
